@@ -1,14 +1,14 @@
 package vault
 
 // C07 (login side) — the real Core.LoginCreateToken + Core.RegisterAuth + framework.CalculateTTL for every policy
-// list an auth method can return (over the 5-name universe), every identity-derived policy set, all lifetimes:
+// list an auth method can return (over the 5-name universe plus spellings of the reserved names that differ by case or surrounding space), every identity-derived policy set, all lifetimes:
 // the token never carries root or a non-assignable policy, and its lifetime is bounded by the explicit and mount
 // maximum.
 //
 //vx:pkg github.com/openbao/openbao/v2/internal/vault
-//vx:assume the auth method's policy list and the identity-derived policies range over lists from the 5-name universe up to the bound; lease registration may fail
+//vx:assume the auth method's policy list and the identity-derived policies range over lists from the 5-name universe (the auth method's list also over five case / whitespace spellings of reserved names) up to the bound; lease registration may fail
 //vx:include create.go
-//vx:param loginpol quick=1 thorough=3
+//vx:param loginpol quick=1 thorough=2
 //vx:param parents quick=2 thorough=3
 //vx:bodies github.com/openbao/openbao/v2/internal/vault/routing
 //vx:redirect (*github.com/openbao/openbao/v2/internal/vault/routing.Router).MatchingMountEntry vxLMountEntry
@@ -60,6 +60,24 @@ func vxLRegisterAuth(m *ExpirationManager, ctx context.Context, te *logical.Toke
 }
 func vxLRevokeOrphan(ts *TokenStore, ctx context.Context, id string) error { vxOrphaned++; return nil }
 
+// what an auth method returns is free text: besides the universe, spellings that differ from the reserved names only by
+// case or surrounding space (policy names are normalised - lower-cased and trimmed - before the token is built)
+var vxSpellings = []string{"Root", " root ", "ROOT", "Response-Wrapping", "P"}
+
+func vxSpelledList(tag string, n int) []string {
+	k := vxChoose(tag+" length", n+1)
+	var out []string
+	for i := 0; i < k; i++ {
+		j := vxChoose(tag+" entry", len(vxUniverse)+len(vxSpellings))
+		if j < len(vxUniverse) {
+			out = append(out, vxUniverse[j])
+		} else {
+			out = append(out, vxSpellings[j-len(vxUniverse)])
+		}
+	}
+	return out
+}
+
 func VxLogin() {
 	vxCreated, vxCreates, vxOrphaned, vxLeaseCalls = nil, 0, 0, 0
 	vxSys = vxExtSys{def: vxDur("mount default ttl"), max: vxDur("mount max ttl")}
@@ -71,7 +89,7 @@ func VxLogin() {
 	c.router = &routing.Router{}
 	c.expiration = &ExpirationManager{}
 	auth := &logical.Auth{
-		Policies:        vxList("policies returned by the auth method", vxParam("loginpol")),
+		Policies:        vxSpelledList("policies returned by the auth method", vxParam("loginpol")),
 		NoDefaultPolicy: vxBool("no_default_policy"),
 		DisplayName:     "u",
 		LeaseOptions:    logical.LeaseOptions{TTL: vxDur("auth ttl"), MaxTTL: vxDur("auth max ttl")},
